@@ -147,6 +147,10 @@ def suite_eval(ctx, case):
                 r = type(e).__name__
             ctx.pred('eval', case, r == 'ValueError', 'DiscreteKoyama(%s) with overlapping neighbours: %s' % (p, r), key='C11:koyama-reject')
             return
+        if case.get('sibling'):
+            # another chain with the SAME l and lp but a smaller bead diameter is evaluated first in this process (a sweep over sigma)
+            sib = O.DiscreteKoyama(sigma=p['sigma'] * case['sibling'], l=p['l'], length=N, lp=p['lp'])
+            sib.calculate(k[:4].copy())
         o = make()
         val = np.array(o.calculate(k.copy()), dtype=float)
         B = []; A = []; w = []
@@ -165,6 +169,17 @@ def suite_eval(ctx, case):
         sc = float(max(abs(v) for v in impl_b))
         ctx.corr('eval', case, mb, fl(impl_b), rtol=1e-6, atols=[1e-9 * sc] * len(impl_b), what='DiscreteKoyama kernel_base / kernel parameters')
         judge(ctx, case, name, N, val, pair_sum_from_w(N, np.array(w)))
+        # independent statement: the pair sum with the kernel parameters computed by the MODEL from the chain's (l, cos1, cos2) (no moment
+        # table is read back from the object under test): a stale or shared moment table on the implementation side shows here
+        allns = list(range(1, N))
+        if allns:
+            tb = drv.ask('koyama.base %s %s %s %s' % (f2h(o.l), f2h(o.cos1), f2h(o.cos2), ' '.join(map(str, allns)))).split()
+            Bm = [h2f(tb[5 * q + 3]) for q in range(len(allns))]; Am = [h2f(tb[5 * q + 4]) for q in range(len(allns))]
+            vm = np.array([h2f(t) for t in drv.ask('om koyama %d | %s | %s | %s' % (N, fl(Bm), fl(Am), fl(k))).split()])
+            ctx.pred('eval', case, vm.shape == val.shape and bool(np.all(np.abs(vm - val) <= 1e-6 * N)),
+                     'DiscreteKoyama(sigma=%r, l=%r, lp=%r, N=%d): omega differs from the pair sum with the kernel parameters of these arguments by %.3g%s' %
+                     (p['sigma'], p['l'], p['lp'], N, float(np.max(np.abs(vm - val))) if vm.shape == val.shape else -1, ' (another chain with other sigma was evaluated before)' if case.get('sibling') else ''),
+                     key='C11:koyama-pair-sum')
         lo = val[k * max(B) * N < 1e-3]; hi = val[k * min(B) > 200 * N]
         ctx.pred('eval', case, bool(np.all(np.abs(lo - N) < 1e-4 * N)) and bool(np.all(np.abs(hi - 1) < 0.02)),
                  'DiscreteKoyama(N=%d): limits: omega(k->0) = %s, omega(k->inf) = %s' % (N, lo[:1], hi[-1:]), key='C11:limits')
@@ -216,6 +231,7 @@ def gen_case(rng, maxL, maxN, tier):
             lp = lpmin * rng.choice([1.0, 1.0005, rng.uniform(1.002, 1.5), rng.uniform(1.5, 4.0)])
         c['N'] = rng.choice([2, 3, 5, 10, rng.randint(2, 40 if tier == 'quick' else 60)]); c['p'] = {'sigma': sigma, 'l': l, 'lp': lp}
         c['k'] = c['k'][:24]
+        if not c.get('invalid') and rng.random() < 0.4: c['sibling'] = rng.choice([0.9, 0.8, 0.95])
     elif cls in ('NonOverlappingFreelyJointedChain', 'NFJC'):
         c['N'] = rng.choice([2, 3, 4, 6, rng.randint(2, 12 if tier == 'quick' else 30)]); c['k'] = c['k'][:16]
     return c
